@@ -15,6 +15,7 @@ import (
 	"context"
 	"fmt"
 	"regexp"
+	"runtime/debug"
 	"sort"
 	"strings"
 	"sync"
@@ -238,6 +239,9 @@ func (e Event) String() string {
 	return fmt.Sprintf("%s(%#x)->%d", e.K, e.P, e.A)
 }
 
+// AbortMsg prefixes the trap message of a call ended by AbortOnViolation.
+const AbortMsg = "rcmon: call ended at the first monitor violation: "
+
 // Violation is one failed check.
 type Violation struct {
 	Class  string   `json:"class"`
@@ -270,6 +274,10 @@ type Monitor struct {
 	// which ends the call with a trap instead of an endless release loop.
 	MaxEvents  int64
 	caseEvents int64
+	inCase     bool // false while the start function runs (instantiation)
+	// AbortOnViolation: the first violation of a case ends the call (the host callback panics):
+	// everything after it would run on a heap that is known to be wrong (and may never return).
+	AbortOnViolation bool
 	// RecordKinds: mark kinds for which a census Record is stored.
 	RecordKinds map[int]bool
 	// OpKind: the mark kind that sets Violation.Mark.
@@ -314,6 +322,7 @@ func (mo *Monitor) BeginCase() {
 	mo.Violations = nil
 	mo.Records = nil
 	mo.caseEvents = 0
+	mo.inCase = true
 	mo.curMark = -1
 	mo.seenClass = map[string]bool{}
 	mo.ringPos, mo.ringFull = 0, false
@@ -354,6 +363,9 @@ func (mo *Monitor) violate(class string, ptr uint32, format string, a ...interfa
 	}
 	mo.seenClass[k] = true
 	mo.Violations = append(mo.Violations, Violation{Class: class, Ptr: ptr, Mark: mo.curMark, Detail: fmt.Sprintf(format, a...), Trace: mo.trace()})
+	if mo.AbortOnViolation && mo.inCase {
+		panic(AbortMsg + class)
+	}
 }
 
 // Census returns (live blocks, live bytes).
@@ -546,6 +558,7 @@ type Program struct {
 	RecordKinds map[int]bool
 	OpKind      int
 	MaxEvents   int64
+	Abort       bool
 }
 
 // Instance is one module instance with its own monitor and output buffer.
@@ -691,7 +704,7 @@ func (in *Instance) instantiate() error {
 		in.mod = nil
 	}
 	in.mon = NewMonitor(in.Poison)
-	in.mon.RecordKinds, in.mon.OpKind, in.mon.MaxEvents = p.RecordKinds, p.OpKind, p.MaxEvents
+	in.mon.RecordKinds, in.mon.OpKind, in.mon.MaxEvents, in.mon.AbortOnViolation = p.RecordKinds, p.OpKind, p.MaxEvents, p.Abort
 	p.seq++
 	in.out.Reset()
 	p.cur = in
@@ -798,6 +811,11 @@ func (in *Instance) CallWatched(name string, cpuBudget float64, wallCap time.Dur
 			return res
 		}
 	}
+	// No garbage collection while the call is watched: a goroutine spinning in engine-compiled
+	// code (no host call) cannot be preempted, so a GC stop-the-world would freeze the whole
+	// process including this watchdog. One case allocates next to nothing on the Go side.
+	// (It stays off after a hang: the stuck goroutine is still there and the process is retired.)
+	gcp := debug.SetGCPercent(-1)
 	done := make(chan CallResult, 1)
 	go func() { done <- in.Call(name) }()
 	cpu0, t0 := cpuSeconds(), time.Now()
@@ -807,6 +825,7 @@ func (in *Instance) CallWatched(name string, cpuBudget float64, wallCap time.Dur
 	for why == "" {
 		select {
 		case r := <-done:
+			debug.SetGCPercent(gcp)
 			return r
 		case <-tick.C:
 			if c := cpuSeconds() - cpu0; c > cpuBudget {
